@@ -37,6 +37,7 @@ E_KDF  == "KdfOutputTooLong"
 E_ENC  == "EncapError"
 E_DEC  == "DecapError"
 E_LEN  == "IncorrectInputLength"
+E_SEAL == "SealError"
 
 (***************************************************************************)
 (* ContextS.Seal, in-place detached form.  touched = FALSE means the       *)
